@@ -729,15 +729,24 @@ func (s *Sim) Settle(d time.Duration, chunk time.Duration) error {
 // SetFaultsEnabled switches injected faults on or off (targets stay active).
 func (s *Sim) SetFaultsEnabled(on bool) { s.faultsOff = !on }
 
-// Abort releases every parked task with a panic that unwinds it.  Called at
-// the end of a failed run so the bubble can terminate.
+// Abort drains the run at its end so the bubble can terminate.  Harness tasks parked at
+// a client-operation boundary are unwound (the panic is raised in harness code, never
+// inside Sync Gateway code, whose goroutines treat a panic as fatal); every other parked
+// goroutine is simply released to run on.
 func (s *Sim) Abort() {
-	for i := 0; i < 10000; i++ {
+	s.faultsOff = true
+	for i := 0; i < 50000; i++ {
 		synctest.Wait()
 		s.mu.Lock()
 		var t *Task
 		names := make([]string, 0, len(s.parked))
-		for n := range s.parked {
+		for n, pt := range s.parked {
+			if pt.pp.Ready != nil && !pt.pp.Ready() {
+				continue
+			}
+			if pt.pp.Opts != nil && len(pt.pp.Opts()) == 0 {
+				continue
+			}
 			names = append(names, n)
 		}
 		sort.Strings(names)
@@ -749,7 +758,14 @@ func (s *Sim) Abort() {
 		if t == nil {
 			return
 		}
-		t.wake <- "\x00abort"
+		alt := Go
+		switch {
+		case t.pp.Kind == "op" || (t.pp.Kind == "start" && t.fg):
+			alt = "\x00abort"
+		case t.pp.Opts != nil:
+			alt = t.pp.Opts()[0]
+		}
+		t.wake <- alt
 	}
 }
 
